@@ -40,7 +40,8 @@ fn check_callee(callee: &Ident, range: SourceRange, ctx: &mut Context) {
   if matches!(
     callee.sym().as_ref(),
     "Math" | "JSON" | "Reflect" | "Atomics"
-  ) && ctx.scope().var(&callee.to_id()).is_none()
+  ) && callee.ctxt() == ctx.unresolved_ctxt()
+    && ctx.scope().var(&callee.to_id()).is_none()
   {
     ctx.add_diagnostic(
       range,
